@@ -8,7 +8,7 @@ a machine-specific code of one machine never equals the same number of another m
 common codes do.  Inputs: generated symbol tables (all type x binding x visibility codes,
 zero size, SHN_ABS, SHN_UNDEF, section symbols, long and empty names, 0 and 5000 symbols,
 ELF32/ELF64, LSB/MSB, every machine elf.h knows), the sample binaries, freshly linked objects."""
-import glob, json, os, random
+import glob, json, os, random, re
 from vf import common, zcheck, dwgen, elfread, dwcorpus
 from vf.dwgen import Die, Unit, Forest
 
@@ -43,6 +43,20 @@ def gen_symbols(rng, shape):
         shndx = rng.choice([0xfff1, 0xfff1, 0, 1, 2, 3])
         syms.append((name, value, size, (b << 4) | t, rng.randrange(4) | rng.choice([0, 0, 0x20]), shndx))
     return syms
+
+
+def _markers():
+    out = {}
+    try:
+        txt = open("/usr/include/elf.h").read()
+        for m in re.finditer(r"^#define\s+(ST[TBV]_(?:LOOS|HIOS|LOPROC|HIPROC))\s+(\d+)", txt, re.M):
+            out[m.group(1)] = int(m.group(2))
+    except OSError:
+        pass
+    return out
+
+
+RANGE_MARKERS = _markers()
 
 
 def check_file(d, path, tag, out, bad, raw=False):
@@ -87,6 +101,18 @@ def check_file(d, path, tag, out, bad, raw=False):
                 allnames = set(n for (f2, a), tab in elfread.elf_names()[1].items() if f2 == fam for ns in tab.values() for n in ns)
                 if val["f"] in allnames:
                     bad.append(("symbol-constant-given-a-name-of-another-machine:%s" % fam, dict(w, machine=truth["machine"], code=code, got=val["f"]))); break
+                # a code without a name of its own: if it is rendered relative to a range marker of elf.h (STT_LOPROC+1, STB_LOOS+2) or
+                # with a number, that has to denote the stored code
+                m = re.fullmatch(r"(ST[TBV]_[A-Z]+)\+(\d+)", val["f"])
+                if m:
+                    basev = RANGE_MARKERS.get(m.group(1))
+                    out["relative_renderings"] = out.get("relative_renderings", 0) + 1
+                    if basev is None or basev + int(m.group(2)) != code:
+                        bad.append(("symbol-constant-rendering-denotes-another-code:%s" % fam, dict(w, code=code, got=val["f"], marker=basev))); break
+                else:
+                    m = re.search(r"\((0x[0-9a-f]+|\d+)\)", val["f"])
+                    if m and int(m.group(1), 0) != code:
+                        bad.append(("symbol-constant-rendering-denotes-another-code:%s" % fam, dict(w, code=code, got=val["f"]))); break
         else:
             continue
         break
@@ -222,7 +248,7 @@ def run(chk):
         "rule": "one evaluation = one symbol table entry compared field by field (+3 constant renderings) or one cross-machine equality cell; distinct_nontrivial = files",
         "files": tot.get("files", 0), "generated_files": tot.get("machines", 0), "machines_in_elf_h": len(machines),
         "constant_renderings_checked": tot.get("renderings", 0), "of_which_named_by_elf_h": tot.get("named", 0),
-        "cross_machine_cells": tot.get("cross", 0), "runs_of_one_compiled_query_over_files_of_different_machines": tot.get("shared_query_runs", 0),
+        "cross_machine_cells": tot.get("cross", 0), "renderings_relative_to_an_elf_h_range_marker_checked": tot.get("relative_renderings", 0), "runs_of_one_compiled_query_over_files_of_different_machines": tot.get("shared_query_runs", 0),
         "samples": samples[:6],
     })
     chk.assumptions += ["values of symbols defined in sections of ET_REL files are relocated by libdwfl and not judged; SHN_ABS/SHN_UNDEF symbols and all symbols of ET_EXEC/ET_DYN files are",
